@@ -45,12 +45,40 @@ def run(tier):
                 L.rec_write(rec, f, key, j % 4 == 0, wd)
             except OverflowError:
                 continue
+        # histories on ONE object: serialise, edit the object (not through set_config), serialise again - with any key or
+        # framing the second output must be the layout of the CURRENT content (nothing cached from the first pass)
+        from bec2format import Bec2File
+        for j in range(25 if tier == "quick" else 300):
+            f = L.gen_bf3(r, 2)
+            key = L.gen_key(r)
+            try:
+                L.rec_to_binary(rec, f, r.choice(offs), key)
+                for _step in range(r.choice([1, 2, 3])):
+                    edit = r.choice(["append", "tag", "delete", "insert", "setcfg"])
+                    if edit == "append":
+                        f.components.append(L.gen_plain_comp(r))
+                    elif edit == "insert":
+                        f.components.insert(0, L.gen_plain_comp(r))
+                    elif edit == "tag" and f.components:
+                        f.components[r.randrange(len(f.components))].description[r.randrange(0x20, 0x60)] = bytes(r.randrange(256) for _ in range(r.choice([0, 1, 5])))
+                    elif edit == "delete" and f.components:
+                        del f.components[r.randrange(len(f.components))]
+                    elif edit == "setcfg":
+                        f.set_config({(r.randrange(0x10000), r.randrange(0xFF)): bytes(r.randrange(256) for _ in range(r.choice([1, 7, 30])))})
+                    key2 = key if r.random() < 0.5 else L.gen_key(r)
+                    L.rec_to_binary(rec, f, r.choice(offs + [r.randrange(2 ** 16)]), key2)
+                    L.rec_write(rec, f, key2, False, wd)
+            except OverflowError:
+                continue
         # BEC2 framing: header + body at offset = header length
         rcpts = G.Recipients(orc, r, 1)
         for j in range(60 if tier == "quick" else 300):
             plan = G.Plan(r, rcpts, r.choice(C.ORDERINGS + [["ecc", "unknown"], ["unknown", "cust"]]),
                           key_cls=r.choice(["generic", "z1"]), explicit_key=r.random() < 0.7, use_default_rcpt=r.random() < 0.5)
-            C.write_plan(rec, seams, orc, r, plan)
+            f, text, _ = C.write_plan(rec, seams, orc, r, plan)
+            if j % 3 == 0:
+                f.bf3file.components.append(L.gen_plain_comp(r))
+                G.rec_bec2_write(rec, seams, orc, f, plan.meta, plan.encs_w, C.enc_specs(plan))
         # binding self-test: flip one byte of a recorded to_binary output
         tb = dict([e for e in rec.events if e["op"] == "bf3.to_binary"][0])
         tb["out"] = list(tb["out"])
